@@ -192,16 +192,9 @@ def rule_rel(R):
     R.ob("rel/pubcomp", bad is None and n > 0 and bool(marks),
          "every non-error path of the PUBREL arm queues a PUBCOMP (%d paths)" % n, where=hb.line(entry))
     # position switch
-    pos = None
-    for bb in sorted(blocks):
-        if bb in hb.switches:
-            si = hb.switch_info(bb)
-            for alt in phi_alts(si["subject"]):
-                if is_call(alt, "position", "iter::Iterator::position") and "pending_server_packet_ids" in show(alt):
-                    pos = si
-    if pos is None:
+    some_t, none_t = roles.lookup_edges(hb, blocks, "pending_server_packet_ids")
+    if some_t is None:
         raise AnchorLost("pubrel-arm:lookup")
-    some_t, none_t = pos["edges"].get("Some"), pos["edges"].get("None")
     for bb, (c, alt) in sorted(marks.items()):
         fields = dict(zip(alt[4], alt[5]))
         R.ob("rel/pubcomp-id", chain(fields["packet_id"]) == (("param", pkt), ["@PubRel", "0", "packet_id"]),
